@@ -54,7 +54,11 @@ BendSpines == {<< <<0, 0>>, <<10, 0>>, <<10, 8>> >>,                       \* on
                << <<0, 0>>, <<10, 0>>, <<10, 6>>, <<20, 6>> >>,          \* two corners sharing a short leg
                << <<0, 0>>, <<8, 0>>, <<14, 6>> >>,                      \* 45 degree corner
                << <<0, 0>>, <<3, 0>>, <<3, 10>> >>,                      \* first leg too short for large radii
-               << <<0, 0>>, <<9, 0>>, <<9, -9>>, <<0, -9>>, <<0, -2>> >>} \* three right turns
+               << <<0, 0>>, <<9, 0>>, <<9, -9>>, <<0, -9>>, <<0, -2>> >>, \* three right turns
+               \* diagonal legs that mirror each other about an axis-parallel line through the corner
+               \* (the sum of the two leg directions has a zero component)
+               << <<0, -8>>, <<8, 0>>, <<0, 8>> >>, << <<8, -8>>, <<0, 0>>, <<8, 8>> >>,
+               << <<0, 8>>, <<8, 0>>, <<0, -8>> >>, << <<-8, 8>>, <<0, 0>>, <<8, 8>> >>}
 Bends == {[k |-> "fpbend", spine |-> sp, w |-> w, o |-> o, r |-> r, ends |-> e, tolk |-> 2] :
             sp \in BendSpines, w \in (IF Depth = "thorough" THEN {1000, 600, 1600} ELSE {1000, 600}),
             o \in (IF Depth = "thorough" THEN {0, 750, -750, 300, -1200} ELSE {0, 750, -750}),
